@@ -60,6 +60,15 @@ pub enum Type {
     ),
 }
 impl Type {
+    /// `void` has no value: it only means something behind a pointer.
+    pub(crate) fn is_void_by_value(&self) -> bool {
+        match self {
+            Type::Raw(path) => path.len() == 1 && path.last().is_some_and(|s| s.as_str() == "void"),
+            Type::Array(t, _) => t.is_void_by_value(),
+            _ => false,
+        }
+    }
+
     /// Returns `None` if this type is unresolved
     pub(crate) fn size(&self, type_registry: &type_registry::TypeRegistry) -> Option<usize> {
         match self {
